@@ -1,0 +1,160 @@
+//go:build verif
+
+package virtual
+
+import (
+	"sort"
+)
+
+// This file only exists in builds that carry the "verif" tag. It exposes
+// read-only snapshots of inMemoryPrepopulatedDirectory's internal state
+// to the model checking harness in /verif/harness/vfs. None of the
+// functions below modify the directory.
+
+// VerifDirEntry is a plain-data copy of one inMemoryDirectoryEntry.
+type VerifDirEntry struct {
+	Name           string
+	NormalizedName string
+	Cookie         uint64
+	// Exactly one of Directory and Leaf is set.
+	Directory PrepopulatedDirectory
+	Leaf      LinkableLeaf
+	// InMap is true if entriesMap[NormalizedName] refers to this
+	// very entry.
+	InMap bool
+	// LinksOK is true if previous.next and next.previous both
+	// refer to this very entry.
+	LinksOK bool
+}
+
+// VerifDirSnapshot is a plain-data copy of the state of a single
+// inMemoryPrepopulatedDirectory.
+type VerifDirSnapshot struct {
+	// Initialized is false as long as the InitialContentsFetcher
+	// has not been consumed.
+	Initialized bool
+	Deleted     bool
+	ChangeID    uint64
+	// Entries in the order of entriesList (forward walk).
+	Entries []VerifDirEntry
+	// MapSize is len(entriesMap).
+	MapSize int
+	// MapOnly lists the normalized names that are present in
+	// entriesMap without being reachable through entriesList.
+	MapOnly []string
+	// ListTruncated is set if the forward walk did not return to
+	// the list head within a sane number of steps.
+	ListTruncated bool
+	// BackwardOK is true if walking entriesList backwards yields
+	// the reverse of the forward walk.
+	BackwardOK bool
+}
+
+const verifMaximumListWalk = 100000
+
+// VerifSnapshotDirectory returns a snapshot of the provided directory.
+// No locks are acquired: the caller must guarantee that no call into the
+// directory is making progress (single threaded use, or all threads
+// parked by the controlled scheduler). The boolean is false if the
+// directory is not an inMemoryPrepopulatedDirectory.
+func VerifSnapshotDirectory(d Directory) (VerifDirSnapshot, bool) {
+	i, ok := d.(*inMemoryPrepopulatedDirectory)
+	if !ok {
+		return VerifDirSnapshot{}, false
+	}
+	s := VerifDirSnapshot{
+		Initialized: i.initialContentsFetcher == nil,
+		Deleted:     i.contents.isDeleted,
+		ChangeID:    i.contents.changeID,
+		MapSize:     len(i.contents.entriesMap),
+		BackwardOK:  true,
+	}
+	if !s.Initialized || i.contents.entriesList.next == nil {
+		// initialize() has not been called yet.
+		return s, true
+	}
+	c := &i.contents
+	forward := make([]*inMemoryDirectoryEntry, 0, len(c.entriesMap))
+	s.Entries = make([]VerifDirEntry, 0, len(c.entriesMap))
+	allInMap := true
+	steps := 0
+	for entry := c.entriesList.next; entry != &c.entriesList; entry = entry.next {
+		if entry == nil || steps >= verifMaximumListWalk {
+			s.ListTruncated = true
+			break
+		}
+		steps++
+		forward = append(forward, entry)
+		e := VerifDirEntry{
+			Name:           entry.name.String(),
+			NormalizedName: string(entry.normalizedName),
+			Cookie:         entry.cookie,
+			InMap:          c.entriesMap[entry.normalizedName] == entry,
+			LinksOK:        entry.previous != nil && entry.next != nil && entry.previous.next == entry && entry.next.previous == entry,
+		}
+		if directory, leaf := entry.child.GetPair(); directory != nil {
+			e.Directory = directory
+		} else {
+			e.Leaf = leaf
+		}
+		allInMap = allInMap && e.InMap
+		s.Entries = append(s.Entries, e)
+	}
+	// Backward walk.
+	k := len(forward) - 1
+	steps = 0
+	for entry := c.entriesList.previous; entry != &c.entriesList; entry = entry.previous {
+		if entry == nil || steps >= verifMaximumListWalk || k < 0 || forward[k] != entry {
+			s.BackwardOK = false
+			break
+		}
+		steps++
+		k--
+	}
+	if k >= 0 && s.BackwardOK {
+		s.BackwardOK = false
+	}
+	if !allInMap || len(forward) != len(c.entriesMap) {
+		// Map and list disagree: find out which names only the
+		// map knows. (If every list entry is the one the map has
+		// under its name and both have the same size, they hold
+		// exactly the same entries.)
+		reached := map[*inMemoryDirectoryEntry]struct{}{}
+		for _, entry := range forward {
+			reached[entry] = struct{}{}
+		}
+		for name, entry := range c.entriesMap {
+			if _, ok := reached[entry]; !ok {
+				s.MapOnly = append(s.MapOnly, string(name))
+			}
+		}
+		sort.Strings(s.MapOnly)
+	}
+	return s, true
+}
+
+// VerifDirectoryChangeID returns the change counter of the directory
+// without acquiring its lock.
+func VerifDirectoryChangeID(d Directory) uint64 {
+	if i, ok := d.(*inMemoryPrepopulatedDirectory); ok {
+		return i.contents.changeID
+	}
+	return 0
+}
+
+// VerifDirectoryLockIsFree reports whether the mutex of the directory
+// can be acquired right now. The mutex is released again immediately,
+// so the state of the directory is left unchanged. It is used to detect
+// calls that return with the directory lock still held without having
+// to block on it.
+func VerifDirectoryLockIsFree(d Directory) bool {
+	i, ok := d.(*inMemoryPrepopulatedDirectory)
+	if !ok {
+		return true
+	}
+	if !i.lock.TryLock() {
+		return false
+	}
+	i.lock.Unlock()
+	return true
+}
